@@ -62,9 +62,13 @@ func init() {
 		a := e.dmat("a", n, lda)
 		ipiv := e.ints("ipiv", n, true, nil)
 		b := e.mat("b", n, nrhs, ldb)
+		// Dgesv factorizes A whenever n > 0 (also for nrhs == 0, since the
+		// repair of the nrhs == 0 quick return), so a and ipiv are examined
+		// then; b only when there is a right-hand side.
+		chkA := n > 0
 		chk := n > 0 && nrhs > 0
 		e.run(func() {
-			impl.Dgesv(e.fdim("n", n), e.fdim("nrhs", nrhs), fs(e, "shortA", a, chk), e.fld("lda", lda, max(1, n)), fx(e, "Ipiv", ipiv, chk), fs(e, "shortB", b, chk), e.fld("ldb", ldb, max(1, nrhs)))
+			impl.Dgesv(e.fdim("n", n), e.fdim("nrhs", nrhs), fs(e, "shortA", a, chkA), e.fld("lda", lda, max(1, n)), fx(e, "Ipiv", ipiv, chkA), fs(e, "shortB", b, chk), e.fld("ldb", ldb, max(1, nrhs)))
 		})
 	})
 
